@@ -7,5 +7,6 @@ CONSTANTS
   Proto = "code"
   RequireLastLeaf = TRUE
   MaxSteps = 4
+  EmitAt = 5
 VIEW view
 INVARIANTS TypeOK AccIsFromScratch AsBitmapIsLeafSet RootIsFromScratch RestartSame LastLeafUnspent LoopEqClosed PosMapOK SizeMapOK
